@@ -25,7 +25,7 @@ ASSUMPTIONS = [
     "with link faults enabled the clauses are checked only while the ASH link has not failed",
 ]
 PROBES = ["type.unicast", "type.multicast", "type.broadcast", "type.other_defined", "type.undefined", "join.allowed", "join.denied", "join.left", "join.left_denied",
-          "payload.empty", "payload.max", "rssi.negative", "faulty_link", "xiaomi_prefix", "join.device_known", "message_from_nwk_of_last_join_callback", "started_by_zigpy_auto_form", "reconnect_other_version", "callback_during_reload", "callback_during_energy_scan", "callback_during_permit", "callback_during_add_endpoint"]
+          "payload.empty", "payload.max", "rssi.negative", "faulty_link", "xiaomi_prefix", "join.device_known", "message_from_nwk_of_last_join_callback", "started_by_zigpy_auto_form", "reconnect_other_version", "callback_under_sequence_pending_on_another_connection", "callback_under_sequence_left_pending_on_old_connection", "callback_during_reload", "callback_during_energy_scan", "callback_during_permit", "callback_during_add_endpoint"]
 
 VERSIONS = list(range(4, 15))
 UNICAST, MULTICAST, BROADCAST = 0, 2, 4
@@ -59,6 +59,8 @@ def plan(tier):
         sweeps.append(("busy", {"V": V, "sched": False}))
     for V in VERSIONS:
         sweeps.append(("autoform", {"V": V, "sched": False}))
+    for V, VB in ((8, 8), (13, 14), (4, 7), (14, 14)):
+        sweeps.append(("twin", {"V": V, "VB": VB, "sched": False}))
     for V, then in ((13, [14]), (14, [13]), (14, [8, 14]), (4, [14, 7]), (8, [9]), (12, [14, 12])):
         sweeps.append(("reconnect", {"V": V, "then": then, "sched": False}))
     return {
@@ -205,6 +207,47 @@ def run(scenario, params, tape, detail=False):
                 await incoming(app, mtype, aps, 200 + k, -40 - k, 0x4000 + k, k, 0xFF - k, (b"", b"\x01\x02", bytes(range(30)), b"\x7e\x11", b"z")[k])
             await tcjoin(app, 0x1234, bytes([1, 2, 3, 4, 5, 6, 7, 8]), 0, 0, 0x0000)
             await tcjoin(app, 0x1234, bytes([1, 2, 3, 4, 5, 6, 7, 8]), DEVICE_LEFT, 0, 0x0000)
+        elif scenario == "twin":
+            # a second radio in the same process (its own EZSP connection) has a command pending under sequence S when THIS connection's NCP
+            # stamps its callbacks with S: one connection's bookkeeping never swallows another connection's frames
+            import bellows.uart
+            import zigpy.serial
+
+            from .. import e3
+
+            rig_b = e3.StackRig(tape, version=params["VB"], loop=loop, fast_line=True, chunking=False)
+            zigpy.serial.create_serial_connection = rig_b._create_serial_connection
+            bellows.uart.zigpy.serial.create_serial_connection = rig_b._create_serial_connection
+            ez_b = await rig_b.bringup()
+            hold = {}
+
+            def deliver_b(req, payload):
+                if req.name == "getEui64":
+                    hold["seq"] = req.seq  # never answered
+                    return
+                req.nrsp += 1
+                rig_b.ncp.emit(payload, 0.0, "rsp", req.seq)
+
+            rig_b.ncp.deliver = deliver_b
+            # this connection's NCP last answered sequence S (its callbacks will carry S); the other connection then issues a command that
+            # happens to get the same sequence number S and stays pending
+            want = ncp.last_rsp_seq
+            for _ in range(300):
+                if ez_b._protocol._seq == want:
+                    break
+                await ez_b.nop()
+            pending_b = loop.create_task(ez_b.getEui64())
+            await asyncio.sleep(0.05)
+            if hold.get("seq") == ncp.last_rsp_seq:
+                probe("callback_under_sequence_pending_on_another_connection")
+            for k, mtype in enumerate((UNICAST, MULTICAST, BROADCAST)):
+                aps = (0x0104, 0x0006 + k, 1 + k, 1, 0x0140, 0x1234 + k, 0x21 + k)
+                await incoming(app, mtype, aps, 200 + k, -40 - k, 0x4000 + k, k, 0xFF - k, (b"", b"\x01\x02", bytes(range(30)))[k])
+            await tcjoin(app, 0x1234, bytes([1, 2, 3, 4, 5, 6, 7, 8]), 0, 0, 0x0000)
+            await tcjoin(app, 0x1234, bytes([1, 2, 3, 4, 5, 6, 7, 8]), DEVICE_LEFT, 0, 0x0000)
+            pending_b.cancel()
+            ez_b.close()
+            await asyncio.sleep(0.1)
         elif scenario == "reconnect":
             # one application object, two sticks: callbacks on an NCP of version V, then disconnect and connect again to an NCP of version V2
             # (other side of the v14 field-order boundary included); translation must follow the version of the current connection
@@ -219,6 +262,23 @@ def run(scenario, params, tape, detail=False):
             await batch()
             for V2 in params["then"]:
                 probe("reconnect_other_version")
+                # the old connection ends with a command that was never answered (its registration under sequence S stays behind in that
+                # connection's protocol handler) ...
+                drop = {"on": True, "seq": None}
+                orig_deliver = ncp.deliver
+
+                def deliver(req, payload, drop=drop, orig_deliver=orig_deliver):
+                    if drop["on"] and req.name == "getEui64":
+                        drop["on"], drop["seq"] = False, req.seq
+                        return
+                    orig_deliver(req, payload)
+
+                ncp.deliver = deliver
+                try:
+                    await app._ezsp.getEui64()
+                except Exception:  # noqa: BLE001 - the 10 s command timeout
+                    pass
+                ncp.deliver = orig_deliver
                 await app.disconnect()
                 await asyncio.sleep(1.0)
                 ncp.set_version(V2)
@@ -227,6 +287,13 @@ def run(scenario, params, tape, detail=False):
                 await app.connect()
                 rig.ezsp = app._ezsp
                 await app.start_network()
+                # ... and on the new connection the callbacks arrive stamped with that very sequence number (the NCP stamps a callback with the
+                # sequence of the last response it sent): nothing of the old connection may swallow them
+                for _ in range(300):
+                    if drop["seq"] is None or ncp.last_rsp_seq == drop["seq"]:
+                        probe("callback_under_sequence_left_pending_on_old_connection")
+                        break
+                    await app._ezsp.nop()
                 await batch()
         elif scenario == "busy":
             # callbacks arriving while the application itself is in the middle of something: re-reading its network information (zigpy's
